@@ -6,7 +6,8 @@
    The model follows ONE job j (arbitrary) exactly and the rest of the world through counters:
      raw    reservations taken (curProcessing.Add(1)) whose status re-check is still to come
      okr    reservations whose re-check passed (the dispatcher may now dequeue)
-     doomed reservations whose re-check saw Paused / Stopped (will be returned)
+     doomed reservations that found themselves above the limit, or whose re-check saw Paused /
+            Stopped (will be returned)
      oth    other jobs that are covered by a reservation (dequeued ... not yet released)
    One step = one synchronisation operation of the real code (or a harness mark). Steps of other
    jobs are tagged "Other" by the projection; their preconditions (e.g. "a release by another
@@ -41,8 +42,9 @@ Inductive dev :=
 | DDeqOtherQ               (* ... a job of another queue *)
 | DPurgeQ (n : nat)        (* PurgeValues removed the n elements of j's queue (j among them if it was there) *)
 | DClaimJ (ok : bool)      (* startProcessing(j) *)
-| DReserve (a c : nat)     (* processNextJob: curProcessing.Add(1); a, c = what the event loop's guard loaded from
-                              curProcessing and concurrency just before (a < c) *)
+| DReserve (n c : nat)     (* processNextJob: n = curProcessing.Add(1) (the value the Add returned), c = the
+                              concurrency limit the same thread loads right after; the reservation goes on
+                              only if n <= c, otherwise it is handed back *)
 | DRecheck (v : nat)       (* processNextJob: status load after reserving *)
 | DUnresDoomed             (* deferred curProcessing.Add(-1) after a failed re-check *)
 | DUnresOk                 (* ... after next()/Dequeue/parse failed: nothing was dequeued *)
@@ -124,11 +126,13 @@ Definition dstep (s : dstate) (e : dev) : option dstate :=
       else None
   | DClaimJ ok =>
       if jloc_eqb (jl s) JCov then Some (upd_j s (if ok then JDisp else JSkip)) else None
-  | DReserve a c =>
-      (* the guard passed (a < c), and nobody else incremented since the guard's load of
-         curProcessing: there is one event loop *)
-      if Nat.ltb a c && Nat.leb (cur s) a
-      then Some (mkD (wstat s) (S (cur s)) (qj s) (jl s) (S (raw s)) (okr s) (doomed s) (oth s) (othrun s) (hold s) (wfstarts s))
+  | DReserve n c =>
+      (* any thread, any time (no assumption that there is one event loop): the Add returns the
+         new value; a reservation that finds itself above the limit is doomed *)
+      if Nat.eqb n (S (cur s))
+      then (if Nat.leb n c
+            then Some (mkD (wstat s) (S (cur s)) (qj s) (jl s) (S (raw s)) (okr s) (doomed s) (oth s) (othrun s) (hold s) (wfstarts s))
+            else Some (mkD (wstat s) (S (cur s)) (qj s) (jl s) (raw s) (okr s) (S (doomed s)) (oth s) (othrun s) (hold s) (wfstarts s)))
       else None
   | DRecheck v =>
       match raw s with
